@@ -583,7 +583,7 @@ def mutate(rng, text):
 
 class C16(Check):
     pid = "C16"
-    lean_modules = []
+    lean_modules = ["MTProps.C16"]
 
     def on_crash(self, op, cid, line, err, rc):
         # for C16 the crash itself is the failing input
